@@ -3,9 +3,9 @@
         ensures
             // the error's own conversion is asked for a response with THE STATUS THE ERROR DECLARES; what it
             // returns becomes the handler error (C13: "produces a response with exactly that status")
-            exists|b: Builder| #![trigger e.to_response_spec(b)]
-                b.status == e.status_code_spec().0 && !b.failed && hm_view(b.hdrs) == Seq::<(Seq<char>, Seq<char>)>::empty()
-                && (match e.to_response_spec(b) {
+            exists|res: HttpHandlerResult| #![trigger e.to_response_rel(e.status_code_spec().0, false, Seq::<(Seq<char>, Seq<char>)>::empty(), res)]
+                e.to_response_rel(e.status_code_spec().0, false, Seq::<(Seq<char>, Seq<char>)>::empty(), res)
+                && (match res {
                     Ok(rsp) => r is Handler && r->rsp == rsp,
                     Err(e2) => r == HandlerError::Dropshot(e2),
                 }), // @user_error_converted_with_its_declared_status
